@@ -536,13 +536,13 @@ Definition repr_rat (k : kind) (n : Z) (d : positive) : res rc :=
   if (d =? 1)%positive then repr_big k n
   else if is_integer_kind k then Err ETruncInt
   else
-    (* big.Rat.Float64: nearest float64 and whether it is exact *)
-    match round_rat fmt64 n d with
-    | Some f =>
-      let (n', d') := rat_of_fl f in
-      if (n' =? n) && (d' =? d)%positive then repr_f64 k f
-      else repr_bigf k (big_of_rat n d)
-    | None => repr_bigf k (big_of_rat n d)
+    (* rounded once, by big.Rat.Float32 / big.Rat.Float64 *)
+    match k with
+    | KFloat32 | KComplex64 =>
+      match round_rat fmt32 n d with Some f => Ok (F64 f) | None => Err EOverflows end
+    | KFloat64 | KComplex128 =>
+      match round_rat fmt64 n d with Some f => Ok (F64 f) | None => Err EOverflows end
+    | _ => Err ENotRepr
     end.
 
 Definition repr_rc (k : kind) (c : rc) : res rc :=
